@@ -15,6 +15,7 @@ func init() {
 		},
 		NotDecided: []string{"that jx, logfmt and regexp return the values that are in the document", "logqlpattern.Match's literal/capture alternation", "JSON path parsing"},
 		Rules: func(r *Run) {
+			ruleLabelSetString(r) // the fields a parser stage exposes reach the result under their own names and values: the stream key quotes every value
 			ruleLPClass(r, func(s string) bool {
 				switch s {
 				case "JSONExpressionParser", "LogfmtExpressionParser", "RegexpLabelParser", "PatternLabelParser", "UnpackLabelParser":
